@@ -264,14 +264,21 @@ def arm_is_constant(a):
 
 
 def ite_eval_shape(a):
-    b = unq(a.body)
-    if b.get("k") != "If":
-        return False
     names, _ = a.bindings()
 
     def positions(n):
         return [names[x["res"]["local"]][0] for x in walk(n)
                 if x.get("k") == "Path" and x.get("res", {}).get("local") in names]
+
+    # the selecting conditional: the one `if` of the arm whose condition reads the condition operand; the two value
+    # operands are mentioned only inside its branches (directly evaluated there, or selected there and evaluated after)
+    ifs = [x for x in walk(a.body) if x.get("k") == "If" and 0 in positions(x["c"])]
+    if len(ifs) != 1:
+        return False
+    b = ifs[0]
+    inside = len([p for p in positions(b["then"]) + positions(b.get("else", {})) if p in (1, 2)])
+    if len([p for p in positions(a.body) if p in (1, 2)]) != inside:
+        return False
 
     cond = b["c"]
     calls_ = [callee(x) for x in walk(cond)]
